@@ -5,6 +5,7 @@ package render
 import (
 	"encoding/xml"
 	"fmt"
+	"sort"
 	"strings"
 
 	"github.com/olive-io/bpmn/schema"
@@ -167,7 +168,13 @@ func XML(p *prog.Program, o Options) string {
 	fmt.Fprintf(&w, "  <bpmn:process id=\"proc_%s\" name=\"%s\" isExecutable=\"true\">\n", esc(p.Name), esc(p.Name))
 	scope(p, "", &w, "    ", o)
 	w.WriteString("  </bpmn:process>\n")
-	for r, k := range refs {
+	names := make([]string, 0, len(refs))
+	for r := range refs {
+		names = append(names, r)
+	}
+	sort.Strings(names)
+	for _, r := range names {
+		k := refs[r]
 		if k == "signal" {
 			fmt.Fprintf(&w, "  <bpmn:signal id=\"%s\" name=\"%s\"/>\n", esc(r), esc(r))
 		} else {
